@@ -8,6 +8,43 @@ var realTerminal = []string{"gmrtd iso7816.NfcSession", "gmrtd iso7816.SecureMes
 
 func RegisterAll() {
 	core.Register(&core.Check{
+		Property: "C12",
+		Level:    "exploration",
+		Rule: "byzantine bytes reach the parsers only through the real seams (chip responses through the Transceiver, stored blobs through Verify); monitors: panic, worker death, deterministic step bounds, bytes allocated per call against a linear budget; " +
+			"distinct_nontrivial counts distinct (engine-specific attack, target parser, outcome) tuples",
+		Engines:        []core.Engine{SMRespEngine{}},
+		Assumptions:    []string{"boundary-scoped: only inputs that a chip or a stored blob can deliver through the real read / verify paths are generated; calling each entry point with arbitrary byte strings is input fuzzing and not part of this claim (DESIGN.md 6.12)"},
+		RealComponents: realTerminal,
+		SimComponents:  []string{"byzantine chip / adversarial link", "rotten store"},
+		CrashOwner:     true,
+		QuickBudget:    60, ThoroughBudget: 900,
+	})
+	core.Register(&core.Check{
+		Property: "C03",
+		Level:    "fault_enumeration",
+		Rule: "active adversary on protected responses: for each suite (3DES, AES-128/192/256) x response shapes, every single-bit flip and every truncation length of a short genuine response is enumerated; then seeded histories (0-40 genuine exchanges, initial SSC zero/random/near-wrap, via NfcSession.DoAPDU or SecureMessaging directly) with one adversarial delivery of kind " +
+			"bitflip|bytesub|truncate|do_drop|do_dup|do_reorder|do_nonminimal_len|sw_mismatch|replay|future|cross_session|plaintext|bare_status|random|append|wrong_ssc_rewrap|strip_mac|empty; distinct_nontrivial counts distinct (attack, suite, data-length class, position for bitflip/truncate, status word, SSC mode, path, outcome) tuples in which the attack actually fired",
+		Engines:        []core.Engine{SMRespEngine{}},
+		Assumptions:    []string{"reference chip secure messaging (own retail MAC / CMAC / padding / counter) is the authority for what the chip authenticated", "identical-content acceptances of re-encoded or re-ordered data objects are counted (benign_malleable_accepts), not alarmed: the property's operative clause is 'never different plaintext or a different status' (DESIGN.md 6.3, 10)"},
+		RealComponents: realTerminal,
+		SimComponents:  []string{"scripted card with reference chip-side secure messaging", "active on-path adversary"},
+		RequiredProbes: []string{"rejected"},
+		Exhaustive:     nil,
+		QuickBudget:    60, ThoroughBudget: 900,
+	})
+	core.Register(&core.Check{
+		Property: "C10",
+		Level:    "exploration",
+		Rule: "seeded command histories (1-2000 commands) through the real NfcSession.DoAPDU with a session installed: four ISO cases, short/extended, odd/even INS, data lengths around block, 255/256 and the largest protectable size, Le in {0,1..255,256,257..65535,65536}, initial SSC incl. about-to-wrap, cards with and without extended-length support, arbitrary protected status words; every command is parsed by the strict reference parser and unwrapped by the reference chip; SSC lockstep is checked after every exchange; " +
+			"distinct_nontrivial counts distinct (suite, SSC mode, ext support, history length bucket, top (INS parity, data, Le class, Lc class) tuple) keys",
+		Engines:        []core.Engine{SMCmdEngine{}},
+		Assumptions:    []string{"DO'85' (odd INS) carries the padding-content indicator 01 like DO'87', as the property statement words it", "reference chip secure messaging written from 9303-11 9.8 is the independent chip-side implementation"},
+		RealComponents: realTerminal,
+		SimComponents:  []string{"scripted card with reference chip-side secure messaging and strict ISO 7816-4 command parser"},
+		RequiredProbes: []string{"ssc_wrap", "transport_reject", "authenticated_after_transport_reject", "protected_error_status", "odd_ins"},
+		QuickBudget:    60, ThoroughBudget: 900,
+	})
+	core.Register(&core.Check{
 		Property: "C13",
 		Level:    "exploration",
 		Rule: "seeded runs of the real NfcSession.ReadFile against SimChip; a case = (file content length incl. boundary bands, header form, maxLe, secure messaging suite or none, chip response policy: size cap / short answers one|alt|rand|fixed / Le cap / extended length on|off / EOF warning, sibling files, absent file); " +
